@@ -60,6 +60,11 @@ type IndexedState struct {
 
 	cachedRules map[string]*Rule
 
+	// cachedFrom remembers, for each cached rule, the stored rule
+	// body it was parsed from.  A cached rule is used only for
+	// that very body.
+	cachedFrom map[string]Map
+
 	// cacheMutex guards cachedRules, which is touched by callers
 	// that do not (and need not) hold the state lock.
 	cacheMutex sync.Mutex
@@ -934,6 +939,13 @@ func (s *IndexedState) FindCachedRules(ctx *Context, event Map) (map[string]*Rul
 	for id, r := range rules {
 		s.cacheMutex.Lock()
 		cached, isCached := s.cachedRules[id]
+		if isCached && !sameRuleBody(s.cachedFrom[id], r) {
+			// The rule has been replaced since that version was
+			// parsed.  (A lookup that overlapped the replacement
+			// can have cached the previous version after the
+			// writer dropped the cache entry.)
+			isCached = false
+		}
 		s.cacheMutex.Unlock()
 		if isCached {
 			acc[id] = cached
@@ -949,6 +961,10 @@ func (s *IndexedState) FindCachedRules(ctx *Context, event Map) (map[string]*Rul
 			acc[id] = rule
 			s.cacheMutex.Lock()
 			s.cachedRules[id] = rule
+			if s.cachedFrom == nil {
+				s.cachedFrom = make(map[string]Map)
+			}
+			s.cachedFrom[id] = r
 			s.cacheMutex.Unlock()
 		}
 	}
@@ -959,6 +975,7 @@ func (s *IndexedState) FindCachedRules(ctx *Context, event Map) (map[string]*Rul
 func (s *IndexedState) forgetCachedRule(id string) {
 	s.cacheMutex.Lock()
 	delete(s.cachedRules, id)
+	delete(s.cachedFrom, id)
 	s.cacheMutex.Unlock()
 }
 
@@ -966,5 +983,6 @@ func (s *IndexedState) forgetCachedRule(id string) {
 func (s *IndexedState) resetCachedRules() {
 	s.cacheMutex.Lock()
 	s.cachedRules = make(map[string]*Rule)
+	s.cachedFrom = nil
 	s.cacheMutex.Unlock()
 }
